@@ -78,9 +78,15 @@ def _job(job) -> List[Dict[str, Any]]:
     line = roles.model.lookup("rate").node.lineno
     col = Collector()
     kw = {"tau": "any", "limit_sigma": "any"}
+    custom = False
+    if sel and kinds.endswith("+callback"):
+        # a user-supplied gamma: what it is handed must not be a raw rank / score value either (it may use its `rank` argument)
+        kinds = kinds[: -len("+callback")]
+        custom = True
+        kw["custom_gamma"] = True
     if sel:
         kw[sel] = kinds
-    case = f"{sel or 'no ranks'}={kinds if sel else ''}"
+    case = f"{sel or 'no ranks'}={kinds if sel else ''}" + (" (user gamma)" if custom else "")
     try:
         oc = run_op(prog, roles, "rate", setup=_setup(col), **kw)
     except Exception as e:
@@ -243,7 +249,7 @@ def run(prog: Program, rep: Report, tier: str = "quick") -> None:
     jobs = []
     for i in range(len(roles)):
         for sel in ("ranks", "scores"):
-            for kinds in ("list-of-int", "list-of-float", "list-of-bool", "list-of-mixed-int-float-bool"):
+            for kinds in ("list-of-int", "list-of-float", "list-of-bool", "list-of-mixed-int-float-bool", "list-of-mixed-int-float-bool+callback"):
                 jobs.append((i, sel, kinds))
         jobs.append((i, None, ""))
     seen = set()
